@@ -1,6 +1,7 @@
 import NanoVerif.Proofs.ProgramRestate
 import Mathlib.Algebra.Order.Field.Rat
 import Mathlib.Tactic.NormNum
+import Mathlib.Analysis.Real.Sqrt
 /-!
   C04 — LP/QP interior point: `converged` means feasible and optimal as stated.
 
@@ -271,18 +272,19 @@ theorem restatement_equiv_perm_vars (P : Prog α) (wf : WF P) (idx : List Nat) (
       objective (permVars idx P) (pick 0 idx x) = objective P x :=
   perm_vars_equiv P wf idx hidx x hx
 
-/-! ### non-vacuity (over ℚ): `min ½x₀² + 3x₁  s.t.  x₀ + x₁ = 1,  −x₁ ≤ 0`, optimum `x* = (1, 0)`, `u* = 2`, `v* = −1` -/
+/-! ### non-vacuity: `min ½x₀² + 3x₁  s.t.  x₀ + x₁ = 1,  −x₁ ≤ 0`, optimum `x* = (1, 0)`, `u* = 2`, `v* = −1` -/
 
-def exP : Prog ℚ := ⟨[[1, 0], [0, 0]], [0, 3], [[1, 1]], [1], [[0, -1]], [0]⟩
+def exP (α : Type) [Field α] : Prog α := ⟨[[1, 0], [0, 0]], [0, 3], [[1, 1]], [1], [[0, -1]], [0]⟩
 
-example : WF exP := ⟨by decide, Or.inr rfl, by decide, by decide⟩
+theorem exP_wf : WF (exP α) := by
+  constructor <;> simp [exP, Prog.n]
 
-example : Feasible exP [1, 0] := by
+theorem exP_feasible : Feasible (exP α) [1, 0] := by
   constructor
-  · norm_num [exP, mv, dot]
-  · norm_num [exP, mv, dot, LeV]
+  · simp [exP, mv, dot]
+  · simp [exP, mv, dot, LeV]
 
-example : Convex exP := by
+theorem exP_convex : Convex (exP α) := by
   constructor
   · intro a b ha hb
     match a, b, ha, hb with
@@ -291,20 +293,53 @@ example : Convex exP := by
     match d, hd with
     | [d0, d1], _ => simp [exP, mv, dot]; exact mul_self_nonneg d0
 
-/-- the KKT point has zero residuals and zero `eta`: the hypotheses of `converged_gap_bound` are satisfiable and the
-    bound is then tight (`0 ≤ …`) -/
-example : (update exP 1 10 [1, 0] [2] [-1] ⟨0, 0, [], [], []⟩).rdual = [0, 0] ∧
-    (update exP 1 10 [1, 0] [2] [-1] ⟨0, 0, [], [], []⟩).rprim = [0] ∧
-    (update exP 1 10 [1, 0] [2] [-1] ⟨0, 0, [], [], []⟩).eta = 0 := by
+/-- the KKT point has zero residuals and zero `eta` (ℚ): the ε-KKT hypotheses are satisfiable and the bound is then tight -/
+example : (update (exP ℚ) 1 10 [1, 0] [2] [-1] ⟨0, 0, [], [], []⟩).rdual = [0, 0] ∧
+    (update (exP ℚ) 1 10 [1, 0] [2] [-1] ⟨0, 0, [], [], []⟩).rprim = [0] ∧
+    (update (exP ℚ) 1 10 [1, 0] [2] [-1] ⟨0, 0, [], [], []⟩).eta = 0 := by
   norm_num [update, exP, gradObj, slack, mv, dot, vadd, vsub, tmv, zeros, Prog.n, Prog.m, List.replicate_succ, axpy]
 
-/-- an interior point: stage 1 accepts, `make_smax` is the textbook ratio -/
+/-- `make_smax` is the textbook ratio test -/
 example : makeSmax (1000 : ℚ) [1, 2] [-2, 1] = 1 / 2 := by
   norm_num [makeSmax, smaxLoop, cmin]
+
+/-- stage 1 backtracks once (`x ≤ 1`, from `x = 0` along `dx = 3`: `s = 1/2` leaves the interior, `s = 1/4` does not):
+    the hypothesis of `Gx_lt_h_invariant` is satisfiable with a step that is not the initial one -/
+example : stage1 (⟨[], [0], [], [], [[1]], [1]⟩ : Prog ℚ) (1 / 2) [0] [3] 5 (1 / 2) = some (1 / 4) := by
+  norm_num [stage1, maxLt, maxCoeff, slack, move, mv, dot, vadd, vsub, smul]
 
 example : doneStatus true (1 / 10 : ℚ) (1 / 10) (1 / 10) (1 / 5) = .converged ∧
     doneStatus true (1 / 10 : ℚ) (1 / 2) (1 / 10) (1 / 5) = .unbounded ∧
     doneStatus false (1 / 10 : ℚ) (1 / 10) (1 / 10) (1 / 5) = .unfeasible := by
   refine ⟨?_, ?_, ?_⟩ <;> norm_num [doneStatus, cmax3, cmax]
+
+/-! the square-root hypothesis is satisfiable (ℝ), together with all the other hypotheses of the gap bounds -/
+section real
+noncomputable local instance : Sqrt ℝ := ⟨Real.sqrt⟩
+
+theorem hsqrtReal : ∀ y : ℝ, 0 ≤ y → 0 ≤ Sqrt.sqrt y ∧ Sqrt.sqrt y * Sqrt.sqrt y = y :=
+  fun y hy => ⟨Real.sqrt_nonneg y, Real.mul_self_sqrt hy⟩
+
+example : objective (exP ℝ) [2, 1] - objective (exP ℝ) [1, 0] ≤
+    (update (exP ℝ) 1 10 [2, 1] [2] [-1] ⟨0, 0, [], [], []⟩).eta +
+      norm2 (update (exP ℝ) 1 10 [2, 1] [2] [-1] ⟨0, 0, [], [], []⟩).rdual * norm2 (vsub [2, 1] [1, 0]) +
+      norm1 [-1] * norm2 (update (exP ℝ) 1 10 [2, 1] [2] [-1] ⟨0, 0, [], [], []⟩).rprim :=
+  kkt_gap_bound_norm hsqrtReal (exP ℝ) exP_wf exP_convex 1 10 [2, 1] [2] [-1] [1, 0] ⟨0, 0, [], [], []⟩
+    rfl rfl rfl rfl (by simp [exP]) (by simp) exP_feasible
+
+/-- every hypothesis of `converged_gap_bound` holds for some `ε` (the three residual tests are plain inequalities) -/
+example : ∃ eps : ℝ, objective (exP ℝ) [2, 1] - objective (exP ℝ) [1, 0] ≤
+    (normalize (1 / 1000) (exP ℝ)).1 * (eps * (1 + norm2 (vsub [2, 1] [1, 0]) + norm1 [-1])) := by
+  refine ⟨max (max
+    (update (normalize (1 / 1000) (exP ℝ)).2 (normalize (1 / 1000) (exP ℝ)).1 10 [2, 1] [2] [-1] ⟨0, 0, [], [], []⟩).eta
+    (norm2 (update (normalize (1 / 1000) (exP ℝ)).2 (normalize (1 / 1000) (exP ℝ)).1 10 [2, 1] [2] [-1] ⟨0, 0, [], [], []⟩).rdual))
+    (norm2 (update (normalize (1 / 1000) (exP ℝ)).2 (normalize (1 / 1000) (exP ℝ)).1 10 [2, 1] [2] [-1] ⟨0, 0, [], [], []⟩).rprim)
+    + 1, ?_⟩
+  apply converged_gap_bound hsqrtReal (1 / 1000) (by norm_num) (exP ℝ) exP_wf exP_convex 10 _ [2, 1] [2] [-1] [1, 0]
+    ⟨0, 0, [], [], []⟩ rfl rfl rfl rfl (by simp [exP]) (by simp) exP_feasible
+  · exact lt_of_le_of_lt (le_trans (le_max_left _ _) (le_max_left _ _)) (lt_add_one _)
+  · exact lt_of_le_of_lt (le_trans (le_max_right _ _) (le_max_left _ _)) (lt_add_one _)
+  · exact lt_of_le_of_lt (le_max_right _ _) (lt_add_one _)
+end real
 
 end NanoVerif.Program
